@@ -454,6 +454,23 @@ def r4(repo, chk):
     pr = Fn(repo, CONN + "_payload_received")
     ign = [h for st in pr.stmts(lambda s: isinstance(s, ast.Try)) for h in st.handlers if h.type is not None and norm(h.type) == "StreamFinishedError"]
     chk.ob("R4", "_payload_received ignores StreamFinishedError and goes on with the next frame", len(ign) == 1 and all(isinstance(s, ast.Pass) for s in ign[0].body), "", pr.loc(pr.node))
+    # end-of-stream is signalled at most once: QuicStreamReceiver.handle_frame answers a frame that arrives after the
+    # receiving part finished (a retransmission overtaken by its delayed original) with another end_stream=True event
+    # - its unit test pins that - so the connection queues a stream event only if the receiver had not finished before
+    hs = Fn(repo, CONN + "_handle_stream_frame")
+    hcalls = [c for c in hs.calls(suffix="handle_frame") if "receiver" in call_name(c)]
+    apps = [c for c in hs.calls(name="self._events.append")]
+    ok = len(hcalls) == 1 and len(apps) == 1
+    if ok:
+        recv = norm(hcalls[0].func.value)
+        ok = False
+        # a local that sampled <receiver>.is_finished *before* the frame was handled, tested false at the append
+        for a_ in hs.guard_atoms(apps[0]):
+            if a_[0].isidentifier() and a_[1] is False:
+                d = [st for st, t, v in hs.assigns(chain=a_[0])]
+                if len(d) == 1 and norm(d[0].value) == f"{recv}.is_finished" and hs.before(d[0], hcalls[0]):
+                    ok = True
+    chk.ob("R4", "_handle_stream_frame queues the receiver's event only if the receiving part had not already finished", ok, "a STREAM frame retransmitted after a spurious loss and delivered together with its delayed original makes the application see end_stream=True twice (findings/c01_end_of_stream_twice_demo.py)", hs.loc(hs.node))
     hf = Fn(repo, "quic.stream:QuicStreamReceiver.handle_frame")
     direct = [r for r in hf.returns() if r.value is not None and isinstance(r.value, ast.Call) and "StreamDataReceived" in call_name(r.value) and norm(get_kw(r.value, "data")) == "frame.data"]
     for r in direct:
